@@ -814,8 +814,11 @@ class Driver:
         if oid in self.issued:
             self.flag('oid-reissued', 'new_oid returned %r twice' % oid)
         if oid in present:
-            self.flag('oid-exists', 'new_oid returned %r which has records'
-                      % oid)
+            cur = self.model.current(oid)
+            fam = '/uncreated-object' if (cur is not None and
+                                          cur[1].kind == UNCREATE) else ''
+            self.flag('oid-exists' + fam, 'new_oid returned %r which has '
+                      'records' % oid)
         self.issued.append(oid)
         return 'oid'
 
